@@ -93,12 +93,14 @@ theorem setThresholds_accepts_iff_flat (v : PyVal) (n : Nat) :
 theorem setThresholds_accepts_iff_nested (v : PyVal) (n : Nat) :
     (∃ r, setThresholds v n true = .ok r) ↔ NestedOK v n := accepts_iff_nestedOK v n
 
-/-- the only error kinds: `ThresholdError`, and `TypeError` exactly for `None` (`len(None)`) -/
+/-- the only error kinds: `ThresholdError`, and `TypeError` exactly for `None` and for objects
+without a length (`len(None)`, `len(Decimal(1))`) -/
 theorem rejects_only_errors (v : PyVal) (n : Nat) (nest : Bool) :
     (∃ r, setThresholds v n nest = .ok r) ∨ setThresholds v n nest = thresholdError ∨
-      (v = .none ∧ setThresholds v n nest = typeError) := by
+      ((v = .none ∨ ∃ t, v = .other t) ∧ setThresholds v n nest = typeError) := by
   cases v with
-  | none => exact Or.inr (Or.inr ⟨rfl, setThresholds_none n nest⟩)
+  | none => exact Or.inr (Or.inr ⟨Or.inl rfl, setThresholds_none n nest⟩)
+  | other t => exact Or.inr (Or.inr ⟨Or.inr ⟨t, rfl⟩, setThresholds_opaque t n nest⟩)
   | str s => exact Or.inr (Or.inl (setThresholds_str s n nest))
   | list xs => rcases setThresholds_list_cases xs n nest with h | h
                · exact Or.inl h
@@ -296,6 +298,69 @@ theorem rejects_malformed (v : PyVal) (n : Nat) :
 returns it unchanged (for at least one target label) -/
 theorem checkThresholds_sound {v : PyVal} {n : Nat} {r : PyVal} (h : checkThresholds v n = .ok r)
     (hn : 1 ≤ n) : r = v ∧ IsFlatNorm n v := checkThresholds_ok h hn
+
+/-- `check_nested_thresholds` accepts only a list of flat normal forms (or the empty string, which has
+nothing to iterate over) and returns it unchanged -/
+theorem checkNestedThresholds_sound {v : PyVal} {n : Nat} {r : PyVal}
+    (h : checkNestedThresholds v n = .ok r) :
+    r = v ∧ (v = .str "" ∨ ∃ rows, v = .list rows ∧ ∀ row ∈ rows, IsFlatNorm n row) := by
+  cases v with
+  | str s =>
+    unfold checkNestedThresholds at h
+    by_cases hs : (s.length != 0) = true
+    · simp [hs, thresholdError] at h
+    · simp only [hs, if_false, Bool.false_eq_true] at h
+      have : s = "" := by
+        have : s.length = 0 := by simpa using hs
+        exact String.length_eq_zero_iff.mp this
+      subst this
+      exact ⟨by cases h; rfl, Or.inl rfl⟩
+  | list rows =>
+    rw [checkNested_eq] at h
+    by_cases hall : rows.all (normedRow n) = true
+    · rw [if_pos hall] at h
+      refine ⟨by cases h; rfl, Or.inr ⟨rows, rfl, ?_⟩⟩
+      intro row hrow
+      have hr := List.all_eq_true.mp hall row hrow
+      simp only [normedRow, Bool.and_eq_true] at hr
+      obtain ⟨⟨hl, hlen⟩, hre⟩ := hr
+      cases row with
+      | list ys =>
+        refine ⟨ys, rfl, ?_, ?_⟩
+        · simp [lenOf] at hlen; exact hlen.2
+        · intro y hy; exact List.all_eq_true.mp (by simpa [itemsOf] using hre) y hy
+      | _ => simp [isList] at hl
+    · rw [if_neg hall] at h; cases h
+  | _ => simp [checkNestedThresholds, typeError] at h
+
+/-- entries that are not real numbers — strings (also numeric-looking ones such as `"0.5"`), `None`,
+nested lists, and every other kind of object (`bytes`, `Decimal`, `complex`, arrays …) — are never `Real` -/
+theorem non_numbers_not_real :
+    (∀ s, isReal (.str s) = false) ∧ isReal .none = false ∧ (∀ xs, isReal (.list xs) = false) ∧
+    (∀ t, isReal (.other t) = false) := ⟨fun _ => rfl, rfl, fun _ => rfl, fun _ => rfl⟩
+
+/-- the direct checks reject every list that holds an entry that is not a real number, with
+`ThresholdError`, whatever the shape -/
+theorem check_rejects_non_numeric (xs : List PyVal) (x : PyVal) (n : Nat) (hx : x ∈ xs) (hxr : isReal x = false) :
+    checkThresholds (.list xs) n = thresholdError ∧
+    ∀ rows, .list xs ∈ rows → checkNestedThresholds (.list rows) n = thresholdError := by
+  constructor
+  · have : xs.any (fun t => !isReal t) = true := List.any_eq_true.mpr ⟨x, hx, by simp [hxr]⟩
+    simp [checkThresholds, this]
+  · intro rows hrow
+    rw [checkNested_eq]
+    have : rows.all (normedRow n) = false := by
+      apply List.all_eq_false.mpr
+      refine ⟨.list xs, hrow, ?_⟩
+      have : xs.all isReal = false := List.all_eq_false.mpr ⟨x, hx, by simp [hxr]⟩
+      simp [normedRow, itemsOf, this]
+    simp [this]
+
+/-- an object without a length is rejected by every entry point (as a specification: `TypeError`) -/
+theorem rejects_other (t : String) (n : Nat) :
+    (∀ nest, setThresholds (.other t) n nest = typeError) ∧ checkThresholds (.other t) n = typeError ∧
+    checkNestedThresholds (.other t) n = typeError :=
+  ⟨fun nest => setThresholds_opaque t n nest, rfl, rfl⟩
 
 /-- an optional per-label filter parameter is `None` exactly when it is not given, else a flat normal form -/
 theorem optFlat_sound {v : PyVal} {n : Nat} {r : PyVal} (h : optFlat v n = .ok r) :
@@ -535,6 +600,13 @@ example : setThresholds (.list [.list [.num 1], .list [.num 2, .num 3]]) 2 true 
 example : setThresholds (.list [.list [.num 1, .num 2, .num 3]]) 2 true = thresholdError := by decide +kernel
 example : setThresholds (.list [.list [.str "a", .str "b"]]) 2 true = thresholdError := by decide +kernel
 example : setThresholds (.list [.num 1, .list [.num 2]]) 2 true = thresholdError := by decide +kernel
+example : setThresholds (.list [.list [.str "0.5", .num 1]]) 2 true = thresholdError := by decide +kernel
+example : setThresholds (.list [.list [.num 1, .num 2], .list [.other "bytes:b'2'"]]) 2 true = thresholdError := by
+  decide +kernel
+example : setThresholds (.list [.other "Decimal:1", .num 1]) 2 false = thresholdError := by decide +kernel
+example : checkNestedThresholds (.list [.list [.num 1, .num 2]]) 2 = .ok (.list [.list [.num 1, .num 2]]) := by
+  decide +kernel
+example : checkNestedThresholds (.list [.list [.num 1, .str "2"]]) 2 = thresholdError := by decide +kernel
 example : NestedOK (.list [.list [.num 1], .list [.num 2, .num 3]]) 2 :=
   (setThresholds_accepts_iff_nested _ _).mp
     ⟨.list [.list [.num 1, .num 1], .list [.num 2, .num 3]], by decide +kernel⟩
